@@ -311,7 +311,8 @@ def run(ctx):
     progs = [S.gen_contention(rng) for _ in range(n_cont)] + [S.gen_bound(rng, "c10") for _ in range(n_cont // 8)]
     ctx.sample(progs[0])
     explore(ctx, progs, label="contention: ")
-    progs = [S.gen_chain(rng) for _ in range(n_chain)] + [S.gen_inflight(rng) for _ in range(n_chain // 7)]
+    progs = [S.gen_chain(rng) for _ in range(n_chain)] + [S.gen_inflight(rng) for _ in range(n_chain // 7)] \
+        + [S.gen_huge(rng) for _ in range(n_chain // 7)]
     ctx.sample(progs[0])
     for i in range(0, len(progs), 1500):
         explore(ctx, progs[i:i + 1500], label="chain: ")
